@@ -417,6 +417,11 @@ def stepCore (e : Env) (line : String) : Env × String :=
     | "spec.gfc" :: _ :: ts :: _ =>
       let some t := parseRat ts | throw "bad rat"
       pure (e, showSpec (Pepit.Method.gfc t))
+    | "spec.gdl2" :: _ :: l :: g :: ns :: _ =>
+      let some L := parseRat l | throw "bad rat"
+      let some γ := parseRat g | throw "bad rat"
+      let some n := ns.toNat? | throw "bad n"
+      pure (e, showSpec (Pepit.Method.gdl2 L γ n))
     | "spec.gdl1" :: _ :: l :: g :: ns :: _ =>
       let some L := parseRat l | throw "bad rat"
       let some γ := parseRat g | throw "bad rat"
